@@ -1,6 +1,8 @@
 package main
 
 import (
+	"regexp"
+	"strconv"
 	"fmt"
 	"go/token"
 	"go/types"
@@ -124,7 +126,21 @@ func LoadProg(root string, patterns []string, tags string, cs *ContractSet) (*Pr
 
 // FindFunc resolves a contract to the SSA function it annotates (nil if there is none,
 // e.g. interface methods and externals).
+// closureName: a contract named Parent__N annotates the N-th function literal of Parent (SSA name Parent$N).
+var closureNameRe = regexp.MustCompile(`^(.+)__([0-9]+)$`)
+
 func (p *Prog) FindFunc(fc *FuncContract) *ssa.Function {
+	if m := closureNameRe.FindStringSubmatch(fc.Name); m != nil {
+		pc := *fc
+		pc.Name = m[1]
+		if parent := p.FindFunc(&pc); parent != nil {
+			n, _ := strconv.Atoi(m[2])
+			if n >= 1 && n <= len(parent.AnonFuncs) {
+				return parent.AnonFuncs[n-1]
+			}
+		}
+		return nil
+	}
 	path := fc.Pkg
 	if strings.HasPrefix(path, "./") || path == "." {
 		path = pkgDirToPath(path)
